@@ -33,6 +33,7 @@ type Entry struct {
 	NoInit     bool
 	Concurrent bool // concurrency mode: thread-modular unfolding + partial-order SMT encoding
 	CSolver    string
+	CPar       int    // solver processes the concurrency query is split over (0 = default)
 	What       string // one line: what is encoded / asserted
 }
 
@@ -529,7 +530,7 @@ func runJob(ld *engine.Loaded, e Entry, shard int, mode string, params map[strin
 		r.err = fmt.Errorf("harness entry %s not found", e.Func)
 		return r
 	}
-	cfg := engine.Config{CSolver: e.CSolver, Solver: e.Solver, Shard: shard, MaxDecisions: e.MaxDec, MaxSteps: e.MaxSteps, Params: params, Deadline: deadline, TimeoutS: e.TimeoutS}
+	cfg := engine.Config{CPar: e.CPar, CSolver: e.CSolver, Solver: e.Solver, Shard: shard, MaxDecisions: e.MaxDec, MaxSteps: e.MaxSteps, Params: params, Deadline: deadline, TimeoutS: e.TimeoutS}
 	x, err := engine.NewExec(ld.Prog, cfg)
 	if err != nil {
 		r.err = err
